@@ -289,7 +289,63 @@ func runShutdownSchedule(acts []string) (obs string, viol []string) {
 	return obs, viol
 }
 
+// c11ShutdownFirst: Shutdown completes before Serve is even called (a start-up race the caller cannot exclude:
+// `go s.ListenAndServe(...)` followed at once by Shutdown). Judged by the property itself: after Shutdown returned nil no
+// session starts, a connection accepted afterwards is closed, and Serve returns nil.
+func c11ShutdownFirst(r *Result) {
+	for _, n := range []int{1, 3} {
+		key := fmt.Sprintf("Shutdown, then Serve, then %d connection(s) arrive", n)
+		r.eval(key, true)
+		s := &kmip.Server{}
+		var started int32
+		s.SessionAuthHandler = func(c net.Conn) (interface{}, error) { atomic.AddInt32(&started, 1); return nil, nil }
+		ctx, cancel := context.WithTimeout(context.Background(), 2*time.Second)
+		sdErr := s.Shutdown(ctx)
+		cancel()
+		l := rec.NewListener()
+		var conns []*rec.Conn
+		var clients []*rec.MemConn
+		for i := 0; i < n; i++ {
+			sc, cc := rec.Pipe()
+			rc := rec.NewConn(sc, i+1)
+			conns = append(conns, rc)
+			clients = append(clients, cc)
+			l.Push(rec.AcceptStep{Conn: rc})
+		}
+		init := make(chan struct{})
+		ret := make(chan error, 1)
+		go func() { ret <- s.Serve(l, init) }()
+		obs := fmt.Sprintf("shutdown=%v ", sdErr)
+		select {
+		case e := <-ret:
+			obs += fmt.Sprintf("serve=%v ", e)
+		case <-time.After(2 * time.Second):
+			obs += "serve=still-running "
+		}
+		closed := 0
+		for _, rc := range conns[:1] {
+			select {
+			case <-rc.Closed():
+				closed++
+			case <-time.After(time.Second):
+			}
+		}
+		obs += fmt.Sprintf("first-connection-closed=%d sessions-started=%d", closed, atomic.LoadInt32(&started))
+		want := "shutdown=<nil> serve=<nil> first-connection-closed=1 sessions-started=0"
+		if obs != want {
+			r.find(Finding{Kind: "violation", What: "a Server whose Shutdown had already returned nil went on to accept / serve connections", Input: key, Expect: want, Actual: obs})
+		}
+		// clean up whatever is still running
+		for _, cc := range clients {
+			cc.Close()
+		}
+		l.Close() // (Shutdown is not called a second time: the real Shutdown panics on a second call - outside C11's quantifier)
+		r.Stats["shutdown-first-scenarios"]++
+	}
+}
+
 func runC11(r *Result, d *drv.Driver, tier string, seed int64, replay string) {
+	c11ShutdownFirst(r)
 	maxLen := 5
 	if tier == "thorough" {
 		maxLen = 7
